@@ -3,7 +3,7 @@
 
 use crate::astgen::{self, ACfg, Cond, Doc, Elem, Extent, Node, Opts, Spell};
 use crate::engine::*;
-use crate::linetruth::{kf1_signature, line_truth, strict, Fate, LineTruth};
+use crate::linetruth::{kf1_signature, line_truth, residue_class, Fate, LineTruth};
 use crate::props::clean::AstCase;
 use crate::refmodel::{self, Decision};
 use crate::util::*;
@@ -111,13 +111,13 @@ fn prepare(c: &AstCase, obs: &mut Obs, use_kf1: bool, which: Which) -> Result<Op
     Ok(Some(Prepared { r, tr, lt, out, kf1_line }))
 }
 
-fn final_newline(c: &AstCase) -> bool {
-    c.doc.final_newline
-}
-
 // ---- C11 -------------------------------------------------------------------------------------------------------
 
 pub fn oracle_c11(c: &AstCase, obs: &mut Obs, kf1: bool, counted: bool) -> Verdict {
+    oracle_c11_kf(c, obs, kf1, counted, true, true)
+}
+
+pub fn oracle_c11_kf(c: &AstCase, obs: &mut Obs, kf1: bool, counted: bool, kf_adjacent: bool, kf_blank: bool) -> Verdict {
     let p = match prepare(c, obs, kf1, Which::C11) {
         Ok(Some(p)) => p,
         Ok(None) => return Verdict::Pass,
@@ -135,19 +135,49 @@ pub fn oracle_c11(c: &AstCase, obs: &mut Obs, kf1: bool, counted: bool) -> Verdi
     if tr.n_ready == 0 && out != &r.src {
         vfail!("no element can be removed or unwrapped but the text changed{}", show(&r.src, out));
     }
-    // (3) strict sub-space: line for line
-    let is_strict = strict(lt);
-    if is_strict {
-        let mut explines: Vec<(bool, &str)> = lt.text.iter().zip(lt.fate.iter()).filter(|(_, f)| **f == Fate::Kept).map(|(t, _)| (is_blank(t), t.as_str())).collect();
-        if final_newline(c) {
-            explines.push((true, ""));
+    // (3) line for line, blank lines included, wherever no known residue class applies
+    match residue_class(lt) {
+        None => {
+            let mut explines: Vec<(bool, &str)> = lt.text.iter().zip(lt.fate.iter()).filter(|(_, f)| **f == Fate::Kept).map(|(t, _)| (is_blank(t), t.as_str())).collect();
+            // "a\n" is both [a] with a final line break and [a, ""] without one: empty pieces at the very end are not compared
+            let mut gotlines: Vec<&str> = out.split('\n').collect();
+            while gotlines.last() == Some(&"") {
+                gotlines.pop();
+            }
+            while explines.last().map(|(_, t)| t.is_empty()).unwrap_or(false) {
+                explines.pop();
+            }
+            let same = explines.len() == gotlines.len() && explines.iter().zip(gotlines.iter()).all(|((b, e), g)| if *b { is_blank(g) } else { e.trim_start_matches([' ', '\t']) == g.trim_start_matches([' ', '\t']) });
+            if !same {
+                vfail!("exactly the tag and wrapper lines (and removed children) must disappear and no other line may be added or lost: got {} lines, expected {}{}", gotlines.len(), explines.len(), show(&r.src, out));
+            }
+            obs.class("strict-line-for-line");
         }
-        let gotlines: Vec<&str> = out.split('\n').collect();
-        let same = explines.len() == gotlines.len() && explines.iter().zip(gotlines.iter()).all(|((b, e), g)| if *b { is_blank(g) } else { e.trim_start_matches([' ', '\t']) == g.trim_start_matches([' ', '\t']) });
-        if !same {
-            vfail!("every removed run is a single seam between surviving non-blank lines, so exactly the tag and wrapper lines must disappear and no other line may be added or lost: got {} lines, expected {}{}", gotlines.len(), explines.len(), show(&r.src, out));
+        Some("nothing-removed") => {}
+        Some(why) => {
+            let known = match why {
+                "adjacent-removed-parts" => kf_adjacent,
+                "blank-lines-on-both-sides" => kf_blank,
+                _ => true,
+            };
+            if known {
+                obs.excluded(&format!("blank-lines-not-asserted:{why}"));
+            } else {
+                // the finding is not (or no longer) listed: assert the letter of the property
+                let mut exp: Vec<&str> = lt.text.iter().zip(lt.fate.iter()).filter(|(_, f)| **f == Fate::Kept).map(|(t, _)| t.as_str()).collect();
+                while exp.last().map(|t| t.is_empty()).unwrap_or(false) {
+                    exp.pop();
+                }
+                let mut got: Vec<&str> = out.split('\n').collect();
+                while got.last() == Some(&"") {
+                    got.pop();
+                }
+                let (exp_n, got_n) = (exp.len(), got.len());
+                if exp_n != got_n {
+                    vfail!("{why}: the output has {got_n} lines, the input minus the removed lines has {exp_n}{}", show(&r.src, out));
+                }
+            }
         }
-        obs.class("strict-line-for-line");
     }
     // non-trivial: an unwrap element with condition holding and 0..3 lines between, or a nested child in an unwrapped body
     let mut nt = false;
@@ -345,7 +375,7 @@ pub fn oracle_c13(c: &AstCase, obs: &mut Obs, kf1: bool, counted: bool) -> Verdi
     for (i2, e) in r.elems.iter().enumerate() {
         if tr.decisions[i2] == Decision::Ready {
             if let Some(pi) = e.parent {
-                if tr.decisions[pi] == Decision::Pending && lt.fate[e.open_line] == (Fate::Removed { seam: 2 * i2 }) {
+                if tr.decisions[pi] == Decision::Pending && lt.fate[e.open_line] == (Fate::Removed { seam: 4 * i2 }) {
                     obs.class("removed-block-in-pending-parent");
                     nt = true;
                 }
@@ -556,6 +586,8 @@ pub fn check(ctx: &mut Ctx, id: &'static str) {
         _ => Which::C13,
     };
     let kf1 = ctx.is_known("first-line-indented-ready-tag");
+    let kf_adjacent = ctx.is_known("adjacent-removed-parts");
+    let kf_blank = ctx.is_known("blank-lines-on-both-sides");
     ctx.assume("documents are block-style: every tag stands alone on its line; the text contains no delimiter characters outside tags");
     if kf1 {
         ctx.assume("known finding KF1 (line 1 is an indented ready opening tag) is excluded by its input signature and counted");
@@ -569,7 +601,7 @@ pub fn check(ctx: &mut Ctx, id: &'static str) {
             ctx.exhaustive("grid", "lines between 0..6 x 3x3 wrapper kinds x 3 positions x 3 tag indents x 2 inner indents x final newline x optional ready child", (0..=6usize).collect(), move |between, obs| {
                 for c in c11_grid(*between) {
                     obs.eval();
-                    if let Verdict::Fail(m) = oracle_c11(&c, obs, kf1, true) {
+                    if let Verdict::Fail(m) = oracle_c11_kf(&c, obs, kf1, true, kf_adjacent, kf_blank) {
                         return Some(fail_case("grid", &c, m));
                     }
                 }
@@ -578,8 +610,8 @@ pub fn check(ctx: &mut Ctx, id: &'static str) {
             for c in ["lines-between=0", "lines-between=1", "lines-between=2", "lines-between=3", "strict-line-for-line", "single-line-unwrap", "child-element-in-unwrapped-body"] {
                 ctx.require_class(c);
             }
-            ctx.random("ast-documents", 400, 400_000, 30_000_000, |t| gen(t, which), |c, obs| oracle_c11(c, obs, kf1, false));
-            ctx.reshrink::<AstCase, _, _>("ast-documents", |c, obs| oracle_c11(c, obs, kf1, false), crate::props::clean::shrink_ast);
+            ctx.random("ast-documents", 400, 400_000, 30_000_000, |t| gen(t, which), |c, obs| oracle_c11_kf(c, obs, kf1, false, kf_adjacent, kf_blank));
+            ctx.reshrink::<AstCase, _, _>("ast-documents", |c, obs| oracle_c11_kf(c, obs, kf1, false, kf_adjacent, kf_blank), crate::props::clean::shrink_ast);
         }
         Which::C12 => {
             ctx.rule = "cases = block-style AST documents with unwrap-block elements over indentation units {2 spaces, 4 spaces, tab}, tag indent 0..2 units (+ jitter), inner lines indented below / at / above the first inner line, multi-byte text, default-strategy children, unwrap nesting depth <= 3, block on line 1 / after an empty first line / later. Oracle: every non-blank output line equals the by-construction expectation: a surviving inner line with l leading blanks loses clamp(l - t, 0, max(0, f - t)) blanks at byte offset t (t = tag indent, f = first inner line's indent), for every enclosing unwrapped element. Grid: t x f x l x l2 x position x unit. Non-trivial = d > 0 and some inner line with l < f or l <= t.".into();
@@ -622,7 +654,11 @@ pub fn check(ctx: &mut Ctx, id: &'static str) {
 
 fn dispatch(id: &str, c: &AstCase, obs: &mut Obs, kf1: bool) -> Verdict {
     match id {
-        "C11" => oracle_c11(c, obs, kf1, false),
+        "C11" => {
+            let known = load_known("C11");
+            let has = |sig: &str| kf1 && known.iter().any(|k| k.signature == sig);
+            oracle_c11_kf(c, obs, has("first-line-indented-ready-tag"), false, has("adjacent-removed-parts"), has("blank-lines-on-both-sides"))
+        }
         "C12" => oracle_c12(c, obs, kf1, false),
         _ => oracle_c13(c, obs, kf1, false),
     }
